@@ -67,3 +67,11 @@ int __wrap_nsync_wait_n (void *mu, void (*lock) (void *), void (*unlock) (void *
 	vf_log ("nret nsync_wait_n %d", r);
 	return (r);
 }
+/* the waiter pool (common.c): which struct nsync_waiter_new_ hands out and which one comes back — the fast path of `new`
+   and the reserved path of `free` perform no atomic operation and would otherwise be invisible (Pool layer) */
+waiter *__real_nsync_waiter_new_ (void);
+waiter *__wrap_nsync_waiter_new_ (void) { char nb[64]; waiter *w;
+	vf_log ("ncall nsync_waiter_new_"); w = __real_nsync_waiter_new_ (); vf_log ("nret nsync_waiter_new_ %s", NM (w)); return (w); }
+void __real_nsync_waiter_free_ (waiter *w);
+void __wrap_nsync_waiter_free_ (waiter *w) { char nb[64];
+	vf_log ("ncall nsync_waiter_free_ %s", NM (w)); __real_nsync_waiter_free_ (w); vf_log ("nret nsync_waiter_free_ -"); }
